@@ -269,6 +269,8 @@ def discharge_row(ses, cm, vs, P, blocks, row, label, kind, eps=0, extra=(), sam
     st = ses.stats
     cols = row_cols(row, cm)
     order = sorted(range(len(blocks)), key=lambda k: -len(blocks[k]['iface'] & cols))
+    if row.get('robust') and row.get('uset') is not None and row['uset'].kind == 'exp':
+        return discharge_expset_row(ses, cm, vs, [blocks[k] for k in order], row, label, sample, core)
     for k in order:
         blk = blocks[k]
         if cols and not (blk['iface'] & cols):
@@ -294,6 +296,185 @@ def discharge_row(ses, cm, vs, P, blocks, row, label, kind, eps=0, extra=(), sam
     env = cm.env(vs)
     vt = viol_terms(row, env, z3, eps)
     return ses.oblige(label, P + list(extra) + env.defs, [z3.Or(vt)], kind=kind, core=core, sample=sample)
+
+
+def pairing_ineq(t, d):
+    """<(a,b,c), (u,v,w)> >= 0 for (a,b,c) in K_exp and (u,v,w) in K_exp*, the latter given the way RSOME states
+    it: (d0, d1, d2) = (u - w, v, -u) in K_exp  (gcp.py dual block).  A fact about exp:
+    b*d1 >= c*d2*exp(a/c + d0/d2) >= c*d2*(1 + a/c + d0/d2)."""
+    a, b, c = t
+    d0, d1, d2 = d
+    return -d2 * a + d1 * b - (d0 + d2) * c >= 0
+
+
+def block_polys(cp, blk):
+    """(G, H, cones): the block's constraints as Poly over names 'v<col>': G (g >= 0), H (h == 0); exponential-cone
+    memberships weakened to their linear consequences, cone triples returned separately; of a second-order cone
+    only head >= |tail_i| is kept."""
+    V = lambda j: Poly.var('v%d' % j)
+    G, H = [], []
+    for i in blk['rows']:
+        d, c, sgn = cp.rows[i]
+        e = Poly.const(c) - sum((V(j) * k for j, k in d.items()), Poly())
+        (H if sgn == 1 else G).append(e)
+    for j in sorted(blk['locals'] | blk['iface']):
+        if cp.lb[j] is not None:
+            G.append(V(j) - cp.lb[j])
+        if cp.ub[j] is not None:
+            G.append(Poly.const(cp.ub[j]) - V(j))
+        if cp.vtype[j] == 'B':
+            G += [V(j), 1 - V(j)]
+    for k in blk['cones']:
+        q = cp.qmat[k]
+        G.append(V(q[0]))
+        for j in q[1:]:
+            G += [V(q[0]) - V(j), V(q[0]) + V(j)]
+    cones = []
+    for k in blk.get('xcones', []):
+        a, b, c = cp.xmat[k]
+        G += [V(b), V(c), V(b) - V(a) - V(c)]
+        cones.append((V(a), V(b), V(c)))
+    return G, H, cones
+
+
+def pairing_poly(t, d):
+    a, b, c = t
+    d0, d1, d2 = d
+    return d1 * b - d2 * a - (d0 + d2) * c
+
+
+def rlt_refute(ses, G1, H1, vars1, G2, H2, vars2, extra_ge, viol_gt, label, timeout_ms=20000):
+    """Level-1 reformulation-linearisation: two constraint systems over disjoint variable groups (1: compiled
+    block, 2: realisation and its auxiliaries), coupled only through bilinear facts.  All products
+    g1*g2 >= 0, h1*w = 0 (w in vars2), h2*v = 0 (v in vars1) are added, every degree-2 monomial is replaced by a
+    fresh real variable, and the linear system is decided (QF_LRA).  The linearisation only adds models, so `unsat`
+    proves that the original (true-cone) system has no solution; `sat` proves nothing."""
+    z3 = z3mod()
+    table = {}
+
+    def lin(p):
+        t = z3.RealVal(0)
+        for m, c in p.t.items():
+            if len(m) == 0:
+                t = t + z3.RealVal(str(c))
+                continue
+            if len(m) > 2:
+                raise HarnessError('rlt: degree > 2')
+            key = m if len(m) == 1 else tuple(sorted(m))
+            if key not in table:
+                table[key] = z3.Real('m_' + '*'.join(key))
+            t = t + z3.RealVal(str(c)) * table[key]
+        return t
+    cs = [lin(g) >= 0 for g in G1 + G2] + [lin(h) == 0 for h in H1 + H2]
+    for g1 in G1:
+        for g2 in G2:
+            cs.append(lin(g1 * g2) >= 0)
+    for h in H1:
+        for w in vars2:
+            cs.append(lin(h * Poly.var(w)) == 0)
+    for h in H2:
+        for v in vars1:
+            cs.append(lin(h * Poly.var(v)) == 0)
+    cs += [lin(e) >= 0 for e in extra_ge]
+    neg = [lin(v) > 0 for v in viol_gt]
+    return ses.solve(cs + [z3.Or(neg)], timeout_ms=timeout_ms, label=label + '/rlt'), cs
+
+
+def rlt_block(ses, cp, blk, G2, H2, T2, vars2, viol, label, kind, sample=None, timeout_ms=None):
+    """One compiled block against one adversary system (G2 >= 0, H2 == 0, cone triples T2 over vars2), coupled by
+    the pairing inequalities and the bilinear violation polynomials `viol` (any > 0).  Books a discharged
+    obligation (with reachability twin) on `unsat`; returns the solver's answer."""
+    st = ses.stats
+    G1, H1, bc = block_polys(cp, blk)
+    G2 = list(G2)
+    for x_, y_, z_ in T2:
+        G2 += [y_, z_, y_ - x_ - z_]
+    vars1 = ['v%d' % j for j in sorted(blk['locals'] | blk['iface'])]
+    pairs = [pairing_poly(a, b) for a, b in zip(T2, bc)] if len(T2) == len(bc) else \
+            [pairing_poly(a, b) for a in T2 for b in bc]
+    (res, _), lincs = rlt_refute(ses, G1, H1, vars1, G2, list(H2), list(vars2), pairs, viol, label,
+                                 timeout_ms=timeout_ms or 20000)
+    if res == 'unsat':
+        st.obligations += 1
+        st.kinds[kind] = st.kinds.get(kind, 0) + 1
+        st.twins += 1
+        r2, _ = ses.solve(lincs, timeout_ms=timeout_ms, label=label + '/rlt-twin')
+        if r2 == 'sat':
+            st.twins_ok += 1
+        elif r2 == 'unsat':
+            raise HarnessError('vacuous obligation (rlt): %s' % label)
+        st.discharged += 1
+        if sample is not None and len(st.samples) < 12:
+            st.samples.append(dict(label=label, kind=kind, result='unsat', via='rlt', adversary_cones=len(T2),
+                                   block_cones=len(bc), linear_constraints=len(lincs), **sample))
+    return res
+
+
+def discharge_expset_row(ses, cm, vs, blocks, row, label, sample=None, core=False, timeout_ms=None):
+    """Soundness of a robust row whose uncertainty set has exponential-cone atoms.
+
+    Query: block (relaxed) /\\ z in U (relaxed) /\\ pairing inequalities /\\ row violated at z  -> unsat.
+    Both the set's and the compiled block's cone memberships are hypotheses, so weakening them to their
+    consequences is sound for `unsat`; the pairing inequality (K_exp against K_exp*) is the one fact about
+    exp that the weak-duality argument of the robust counterpart needs.  QF_NRA."""
+    z3 = z3mod()
+    st = ses.stats
+    c = row['cons']
+    U = row['uset']
+    (p,) = c.polys()
+    cols = row_cols(row, cm)
+    timeout_ms = timeout_ms or (15000 if ses.tier == 'quick' else 90000)
+    kind = 'expset-row'
+    last = ('unknown', None)
+    ren = {n: Poly.var('v%d' % j) for n, j in cm.iface.items()}
+    pv = p.subs(ren)
+    for blk in blocks:
+        if not blk.get('xcones') or (cols and not (blk['iface'] & cols)):
+            continue
+        # ---- attempt 1: reformulation-linearisation (QF_LRA)
+        G2, H2, T2, aux = U.relaxed_poly()
+        viol = [pv] if c.sense == 'le' else [pv, -pv]
+        if rlt_block(ses, cm.cp, blk, G2, H2, T2, list(U.names) + aux, viol, label, kind, sample, timeout_ms) == 'unsat':
+            return 'unsat', None
+        # ---- attempt 2: the bilinear system itself (QF_NRA)
+        env = cm.env(vs)
+        for n in U.names:
+            env.m[n] = z3.Real('zx_' + n)
+        ucons, trip = U.relaxed(env)
+        env.exist = []
+        bcones = [tuple(vs[j] for j in cm.cp.xmat[k]) for k in blk['xcones']]
+        base = cm.cp.block_cons(blk, vs, relax_exp=True) + ucons + env.defs
+        t = env.p(p)
+        viol = (t > 0) if c.sense == 'le' else z3.Or(t > 0, t < 0)
+        modes = []
+        if len(trip) == len(bcones):
+            modes.append([pairing_ineq(a, b) for a, b in zip(trip, bcones)])
+        if len(trip) * len(bcones) <= 6 and len(trip) * len(bcones) != len(modes and modes[0] or []):
+            modes.append([pairing_ineq(a, b) for a in trip for b in bcones])
+        for prs in modes:
+            for tac in (('simplify', 'solve-eqs', 'qfnra-nlsat'), None):
+                res, model = ses.solve(base + prs + [viol], timeout_ms=timeout_ms, tactic=tac, label=label + '/expset')
+                if res == 'unsat':
+                    st.obligations += 1
+                    st.kinds[kind] = st.kinds.get(kind, 0) + 1
+                    st.twins += 1
+                    r2, _ = ses.solve(base + prs, timeout_ms=timeout_ms, tactic=tac, label=label + '/expset-twin')
+                    if r2 == 'sat':
+                        st.twins_ok += 1
+                    elif r2 == 'unsat':
+                        raise HarnessError('vacuous exp-set obligation: %s' % label)
+                    st.discharged += 1
+                    if sample is not None and len(st.samples) < 12:
+                        st.samples.append(dict(label=label, kind=kind, result='unsat', set_cones=len(trip),
+                                               block_cones=len(bcones), pairings=len(prs), **sample))
+                    return 'unsat', None
+                if res == 'sat':
+                    last = ('sat', model)
+                    break
+    # no block proved the row: a model of the relaxation is not a real counterexample by itself
+    st.obligations += 1
+    st.kinds[kind] = st.kinds.get(kind, 0) + 1
+    return ('relaxed-sat', last[1]) if last[0] == 'sat' else ('unknown', None)
 
 
 def project_block(ses, cp, blk, vs, hyp, label, kind, core, twin=False, timeout_ms=None, sample=None):
